@@ -1,6 +1,7 @@
 package props
 
 import (
+	"strconv"
 	"fmt"
 	"strings"
 	"sync"
@@ -17,6 +18,48 @@ type parseInput struct {
 	Text   string `json:"text"`
 	// Half is the same construction at half the nesting depth (deep-nest family): the work done must not explode between the two.
 	Half string `json:"half,omitempty"`
+	// Quarter is the same construction with a quarter of the repetitions (long-runs family): four times the input may
+	// cost about four times the memory and processor time, not sixteen times.
+	Quarter string `json:"quarter,omitempty"`
+}
+
+// longRuns are constructs in which one unit can be repeated without limit: prefix + unit x n + suffix. A %d in the
+// unit is replaced by the repetition's number. entry "file-top" puts the run at the top level of a file.
+var longRuns = []struct{ entry, pre, unit, suf string }{
+	{"file", "{call a", ".b", " /}"}, {"file", "{a", ".b", "}"}, {"file-top", "{namespace n}\n{alias a", ".b", "}\n"}, {"file-top", "{namespace a", ".b", "}\n"},
+	{"file", "{$a", ".b", "}"}, {"file", "{$a", "[0]", "}"}, {"file", "{$a", "?.b", "}"}, {"file", "{$a", "?[1]", "}"}, {"file", "{$a", ".0", "}"},
+	{"file", "{1", " + 1", "}"}, {"file", "{'a'", " + 'b'", "}"}, {"file", "{$a", " and $b", "}"}, {"file", "{$a", " ?: $b", "}"}, {"file", "{1", " ? 1 : 1", "}"}, {"file", "{", "not ", "$a}"}, {"file", "{", "-", "1}"},
+	{"file", "{max(", "1, ", "1)}"}, {"file", "{[", "1, ", "]}"}, {"file", "{[", "'k%d': 1, ", "]}"}, {"file", "{[", "'k': 1, ", "]}"}, {"file", "{$x", "|id", "}"}, {"file", "{$x", "|truncate:5", "}"}, {"file", "{$x|truncate:", "1,", "1}"},
+	{"file", "", "a ", ""}, {"file", "", "a\n", ""}, {"file", "", "{sp}", ""}, {"file", "", "{$x}", ""}, {"file", "", " // c\n", ""}, {"file", "", "/* c */", ""}, {"file", "", "/**/", ""}, {"file", "", "<b>", ""}, {"file", "", "\n \n", ""},
+	{"file", "{call .t}", "{param a: 1 /}", "{/call}"}, {"file", "{call .t}", "{param a%d}x{/param}", "{/call}"}, {"file", "{if $a}", "{elseif $b}x", "{/if}"}, {"file", "{switch $a}", "{case 1}x", "{/switch}"}, {"file", "{switch $a}{case ", "1, ", "1}{/switch}"},
+	{"file", "{msg desc=\"d\"}", "{$a} word ", "{/msg}"}, {"file", "{msg desc=\"d\"}", "<b>x</b>", "{/msg}"}, {"file", "{msg desc=\"d\"}", "{$a%d}", "{/msg}"}, {"file", "{msg desc=\"", "d ", "\"}x{/msg}"}, {"file", "{msg desc=\"d\"}{plural $n}", "{case %d}x", "{default}y{/plural}{/msg}"},
+	{"file", "{'", "\\n", "'}"}, {"file", "{'", "\\u0041", "'}"}, {"file", "{'", "a", "'}"}, {"file", "{literal}", "{x}", "{/literal}"}, {"file", "{css ", "a", "}"}, {"file", "{let $v%d: 1 /}", "", ""}, {"file", "", "{let $v%d: 1 /}", ""}, {"file", "{foreach $x in $y}", "{$x}", "{/foreach}"},
+	{"file-top", "{namespace n}\n/**\n", " * @param p%d\n", " */\n{template .t}{/template}\n"}, {"file-top", "{namespace n}\n", "/** */\n{template .t%d}x{/template}\n", ""}, {"file-top", "{namespace n}\n{template .t}\n", "{@param p%d: ?}\n", "{/template}\n"},
+	{"file-top", "{namespace n}\n", "{alias a.b%d}\n", ""}, {"file-top", "{namespace n}\n", "// c\n", ""}, {"file-top", "{namespace n}\n/**", " x", " */\n{template .t}{/template}\n"}, {"file-top", "{namespace n}\n", "{delpackage a}", ""},
+	{"expr", "a", ".b", ""}, {"expr", "1", "+1", ""}, {"expr", "$a", ".b", ""}, {"expr", "[", "1,", "]"}, {"expr", "$a", "[0]", ""}, {"expr", "'", "\\t", "'"}, {"expr", "f(", "f(", "1"}, {"expr", "", "1 ", ""},
+	{"globals", "", "A%d = 1\n", ""}, {"globals", "", "// c\n", ""}, {"globals", "A = 'x'", " + 'y'", "\n"}, {"globals", "A = a", ".b", "\n"}, {"globals", "", "\n", ""}, {"globals", "A", " ", "= 1\n"},
+}
+
+func longRun(k, n int) parseInput {
+	lr := longRuns[k]
+	var b strings.Builder
+	b.WriteString(lr.pre)
+	for j := 0; j < n; j++ {
+		if strings.Contains(lr.unit, "%d") {
+			b.WriteString(strings.Replace(lr.unit, "%d", strconv.Itoa(j), 1))
+		} else {
+			b.WriteString(lr.unit)
+		}
+	}
+	b.WriteString(lr.suf)
+	text, entry := b.String(), lr.entry
+	switch entry {
+	case "file":
+		text = "{namespace d}\n/** */\n{template .t}\n" + text + "\n{/template}\n"
+	case "file-top":
+		entry = "file"
+	}
+	return parseInput{Entry: entry, Family: "long-runs", Text: text}
 }
 
 type family struct {
@@ -350,6 +393,17 @@ func parseFamilies(tier string) []family {
 		if d == 24 {
 			in.Half = mk(12)
 		}
+		return in
+	}})
+	// long runs: the same unit repeated n and 4n times (quick 4000 / 16000, thorough also 30000 / 120000)
+	sizes := []int{16000}
+	if thorough {
+		sizes = []int{16000, 120000}
+	}
+	fams = append(fams, family{"long-runs", len(longRuns) * len(sizes), func(i int, r *fw.Rand) parseInput {
+		n := sizes[i/len(longRuns)]
+		in := longRun(i%len(longRuns), n)
+		in.Quarter = longRun(i%len(longRuns), n/4).Text
 		return in
 	}})
 	return fams
